@@ -54,7 +54,10 @@ BINS=""; for id in $IDS; do
   BINS="$BINS --bin $b"
 done
 echo "== building$BINS (instrumented, $TOOLCHAIN, -j$JOBS) into $TARGET"
-( cd "$WORK/harness" && CARGO_TARGET_DIR="$TARGET" CARGO_NET_OFFLINE=true \
+# build scripts and proc-macros are instrumented too and would drop default_*.profraw into the package directories
+# (/repo, ~/.cargo/registry/src/...) they run in: send those profiles to the scratch directory instead.
+mkdir -p "$WORK/build-profiles"
+( cd "$WORK/harness" && CARGO_TARGET_DIR="$TARGET" CARGO_NET_OFFLINE=true LLVM_PROFILE_FILE="$WORK/build-profiles/%m_%p.profraw" \
     RUSTFLAGS="-C instrument-coverage --cfg odf_rust_dsymbols_verif" \
     cargo $TOOLCHAIN build --release --offline -j"$JOBS" $BINS 2>&1 | grep -E '^error|^ +Finished|could not compile' | tail -15 )
 
